@@ -28,6 +28,7 @@ import (
 func main() { vk.Main("C07", run) }
 
 type tat = testproto.TestAllTypes
+type nested = testproto.TestAllTypes_NestedMessage
 
 type clk struct {
 	mu sync.Mutex
@@ -46,6 +47,7 @@ func run(r *vk.Run) {
 	models(r)
 	concurrentSubscribe(r)
 	sharedChangeEvents(r)
+	conflictingWriters(r)
 	r.Require("core-ops", 1000)
 	r.Require("server-calls", 1000)
 	r.Require("model-ops", 500)
